@@ -42,7 +42,7 @@ PROPS = {
                      'neighbour order inside loop is fixed by sort_gids=True (the property promises no order among neighbours)',
                      'converged() is a stateless function of the array contents after a pass, so the number of converged() calls is not observed',
                      'no pair of particles within 1e-9 of the cut-off'],
-        quick=dict(runs=1500, budget_s=100),
+        quick=dict(runs=6000, budget_s=90),
         thorough=dict(runs=400000, budget_s=2400),
     ),
 }
